@@ -13,7 +13,7 @@ import (
 )
 
 func init() {
-	register("C09", "Decides: (R1) the rolling-update planner stores Result.PodsToCreate only as candidates[:k] with k <= the creation result of the limits function, which is >= 0 and <= max(0, MaxPodCreation) on every return, and MaxPodCreation is filled from the ramp function; (R2) every return of the ramp function is <= max(0, *MaxParallelPodCreation) and <= a ramp term whose polynomial normal form over {increase, slots} is coefficient-wise <= increase + increase*slots, i.e. (1 + slots)*increase; (R3) operand roles of the ramp: increase = GetValueFromIntOrPercent(SlowStartAdditiveIncrease, number of targeted nodes, round up), slots = (now - start) / SlowStartIntervalDuration with now the sync's clock value and start the result of the start-time function, which returns either now or the LastTransitionTime of the replica set's Active condition and the latter only when that condition is True; (R4) deletions per sync <= max(0, MaxUnavailablePod) (same checks as C03.R1/R5) and the MaxUnavailablePod input is exactly GetValueFromIntOrPercent(RollingUpdate.MaxUnavailable, number of targeted nodes, round up), directly or through a helper returning it; (R5) in the replica-set Reconcile every call that can write pods is reachable only through the spacing test (LastFullSync condition absent, or not LastUpdateTime(LastFullSync of the replica set just read) + owner.Spec.Strategy.ReconcileFrequency after the sync's clock value); (R6) from every such call, every path to a return passes the update of the LastFullSync condition (sync's clock value, status True, supportLastUpdate=true) and then the status write of the same status object; the condition updater stores that time as LastUpdateTime.", runC09)
+	register("C09", "Decides: (R1) the rolling-update planner stores Result.PodsToCreate only as candidates[:k] with k <= the creation result of the limits function, which is >= 0 and <= max(0, MaxPodCreation) on every return, and MaxPodCreation is filled from the ramp function; (R2) every return of the ramp function is <= max(0, *MaxParallelPodCreation) and <= a ramp term whose polynomial normal form over {increase, slots} is coefficient-wise <= increase + increase*slots, i.e. (1 + slots)*increase; (R3) operand roles of the ramp: increase = GetValueFromIntOrPercent(SlowStartAdditiveIncrease, number of targeted nodes, round up), slots = (now - start) / SlowStartIntervalDuration with now the sync's clock value and start the result of the start-time function, which returns either now or the LastTransitionTime of the replica set's Active condition and the latter only when that condition is True; (R4) deletions per sync <= max(0, MaxUnavailablePod) (same checks as C03.R1/R5) and the MaxUnavailablePod input is exactly GetValueFromIntOrPercent(RollingUpdate.MaxUnavailable, number of targeted nodes, round up), directly or through a helper returning it; (R5) in the replica-set Reconcile every call that can write pods is reachable only through the spacing test (LastFullSync condition absent, or not LastUpdateTime(LastFullSync of the replica set just read) + owner.Spec.Strategy.ReconcileFrequency after the sync's clock value); (R6) from every such call, every path to a return passes the update of the LastFullSync condition (sync's clock value, status True, supportLastUpdate=true) and then the status write of the same status object; the condition updater stores that time as LastUpdateTime; (R7) where a pod-writing call of the Reconcile is guarded by comparing the time since the LastUpdateTime of the condition that records its previous batch with a period, the call is on the side where at least the period has elapsed (nothing is required if no such throttle exists).", runC09)
 }
 
 const (
@@ -1040,12 +1040,118 @@ func c09Updater(r *Run) {
 		"a newly appended condition carries now as LastUpdateTime", okNew && nNew > 0, fmt.Sprintf("%d appending path(s)", nNew))
 }
 
+// c09BatchThrottles (R7): where the Reconcile guards a pod-writing call by comparing the time elapsed
+// since the LastUpdateTime of a replica-set condition with a period - and that condition is the one
+// updated after the call, i.e. it records the previous batch - the call must sit on the side where at
+// least the period has elapsed. (The throttle is a second line of defence behind the LastFullSync test;
+// inverted, it lets a batch run only within the period after the previous one and never afterwards.)
+// Nothing is required when no such throttle exists.
+func c09BatchThrottles(r *Run) {
+	rec := r.Prog.Method(pkgERS, "Reconciler", "Reconcile")
+	if rec == nil {
+		return
+	}
+	ff := computeFacts(rec)
+	k := ff.K
+	memo := map[*ssa.Function]bool{}
+	var ops []*ssa.Call
+	for _, ci := range callsIn(rec) {
+		if c, ok := ci.(*ssa.Call); ok {
+			if cal := staticCallee(&c.Call); cal != nil && r.Prog.IsRuleSite(cal) && writesPods(r.Prog, cal, memo) {
+				ops = append(ops, c)
+			}
+		}
+	}
+	// updates of a condition type by constant
+	updatesOf := func(t string) []*ssa.Call {
+		var out []*ssa.Call
+		for _, ci := range callsIn(rec) {
+			if c, ok := ci.(*ssa.Call); ok && calleeName(&c.Call) == fnERSCondUpdate && len(c.Call.Args) == 8 {
+				if s, isS := constString(c.Call.Args[2]); isS && s == t {
+					out = append(out, c)
+				}
+			}
+		}
+		return out
+	}
+	// elapsedSince: v is <clock>.Sub(<cond>.LastUpdateTime) for a condition fetched by constant type
+	elapsedSince := func(v ssa.Value) (string, bool) {
+		sub, ok := isCallTo(v, "(time.Time).Sub")
+		if !ok || len(sub.Call.Args) != 2 {
+			return "", false
+		}
+		root, path := accessPath(sub.Call.Args[1])
+		gc, ok := isCallTo(root, fnERSCondGet)
+		if !ok || len(path) == 0 || path[0] != "LastUpdateTime" {
+			return "", false
+		}
+		t, isS := constString(gc.Call.Args[1])
+		return t, isS
+	}
+	for _, b := range rec.Blocks {
+		if len(b.Succs) != 2 || b.Succs[0] == b.Succs[1] {
+			continue
+		}
+		iff, ok := b.Instrs[len(b.Instrs)-1].(*ssa.If)
+		if !ok {
+			continue
+		}
+		bo, ok := iff.Cond.(*ssa.BinOp)
+		if !ok {
+			continue
+		}
+		var elapsed, period ssa.Value
+		var typ string
+		if t, isE := elapsedSince(bo.X); isE {
+			elapsed, period, typ = bo.X, bo.Y, t
+		} else if t, isE := elapsedSince(bo.Y); isE {
+			elapsed, period, typ = bo.Y, bo.X, t
+		} else {
+			continue
+		}
+		for _, op := range ops {
+			from0, from1 := blockReaches(b.Succs[0], op.Block()), blockReaches(b.Succs[1], op.Block())
+			if from0 == from1 {
+				continue // the test does not decide whether this call runs
+			}
+			// the condition records the previous batch of this call: it is updated after the call
+			recorded := false
+			for _, u := range updatesOf(typ) {
+				if canExecuteAfter(op, u) {
+					recorded = true
+				}
+			}
+			if !recorded {
+				continue
+			}
+			succ := b.Succs[0]
+			if from1 {
+				succ = b.Succs[1]
+			}
+			fs := factSet{}
+			for _, f := range k.edgeFacts(b, succ) {
+				fs[fkey(f)] = f
+			}
+			good := false
+			for _, of := range ordFacts(fs) {
+				if k.key(of.lo) == k.key(period) && k.key(of.hi) == k.key(elapsed) {
+					good = true
+				}
+			}
+			r.Check("C09.R7", "throttle on condition "+typ+" guards call to "+shortFunc(staticCallee(&op.Call)), r.Prog.Pos(bo.Pos()), shortFunc(rec),
+				"a pod-writing call guarded by `time since the previous batch` versus a period runs on the side where at least the period has elapsed", good,
+				map[bool]string{true: "", false: "the call is reached only when LESS than (or at most) the period has elapsed since the LastUpdateTime of condition " + typ + ": the throttle is inverted"}[good])
+		}
+	}
+}
+
 func runC09(r *Run) {
 	r.RuleDoc("C09.R1", "creations per sync <= len-capped creation budget <= max(0, MaxPodCreation); MaxPodCreation comes from the ramp function")
 	r.RuleDoc("C09.R2", "ramp result <= max(0, *MaxParallelPodCreation) and <= (1+slots)*increase")
 	r.RuleDoc("C09.R3", "operand roles of the ramp: increase, elapsed time, interval, ramp origin")
 	r.RuleDoc("C09.R4", "deletions per sync <= max(0, MaxUnavailablePod)")
 	r.RuleDoc("C09.R5", "every pod-writing call of the replica-set Reconcile is behind the spacing test")
+	r.RuleDoc("C09.R7", "per-batch throttles (time since the PodDeletion / PodCreation condition versus a period) let the batch run on the elapsed side")
 	r.RuleDoc("C09.R6", "LastFullSync is refreshed with the sync's clock value and the status written on every path after a pod-writing call")
 	r.Floor("C09.R1", 4)
 	r.Floor("C09.R2", 4)
@@ -1081,4 +1187,5 @@ func runC09(r *Run) {
 		relaxFloors(r, "C09.R4")
 	}
 	c09Spacing(r)
+	c09BatchThrottles(r)
 }
